@@ -8,10 +8,11 @@ while args and args[0].startswith("-"):
     if a == "--tier": tier = args.pop(0)
     elif a == "--seed": seed = args.pop(0)
     elif a == "-j": jobs = int(args.pop(0))
-ids = args or [c["property_id"] for c in json.load(open("/verif/MANIFEST.json"))["checks"]]
+ROOT = os.path.dirname(os.path.dirname(os.path.abspath(__file__)))
+ids = args or [c["property_id"] for c in json.load(open(os.path.join(ROOT, "MANIFEST.json")))["checks"]]
 def one(i):
     t0 = time.time()
-    r = subprocess.run(["./check", i, "--tier", tier], cwd="/verif", env=dict(os.environ, VERIF_SEED=seed), stdout=subprocess.PIPE, stderr=subprocess.STDOUT, text=True)
+    r = subprocess.run(["./check", i, "--tier", tier], cwd=ROOT, env=dict(os.environ, VERIF_SEED=seed), stdout=subprocess.PIPE, stderr=subprocess.STDOUT, text=True)
     last = [l for l in r.stdout.splitlines() if l.startswith(("OK", "VIOLATION", "INCONCLUSIVE", "KNOWN", "#   key"))]
     return "%-4s rc=%d %6.1fs %s" % (i, r.returncode, time.time() - t0, " | ".join(last)[:300])
 with concurrent.futures.ThreadPoolExecutor(jobs) as ex:
